@@ -90,7 +90,8 @@ class VarModel(Model):
 
 
 def build(case):
-    idx = {n: get_symbols(n)[0] for n in OCC + VIRT}
+    spins = case.get("spins") or {}
+    idx = {n: get_symbols(n, spins.get(n) or None)[0] for n in OCC + VIRT}
     fs = []
     for kind, names, exp in case["objs"]:
         t = tuple(idx[n] for n in names)
@@ -124,6 +125,14 @@ def gen_cases(tier, seed):
            "targets": ["j"]}
     yield {"objs": [["T", ["i", "j", "b", "c"], 1], ["Z", ["i", "c"], 1]], "tkind": "anti", "pref": [1, 1],
            "targets": ["j", "b"]}
+    # indices of one space with different spins on the removed tensor
+    mixed = {"i": "a", "j": "b", "k": "a", "l": "b", "a": "a", "b": "b", "c": "a", "d": "b"}
+    yield {"objs": [["T", ["i", "j", "a", "b"], 1], ["Z", ["i", "a"], 1], ["Z", ["j", "b"], 1]], "tkind": "anti",
+           "pref": [1, 1], "spins": mixed}
+    yield {"objs": [["T", ["j", "k", "b"], 1], ["Z", ["j", "k", "b"], 1]], "tkind": "non", "pref": [1, 2],
+           "spins": mixed}
+    yield {"objs": [["T", ["j", "i", "b", "a"], 1], ["V", ["a", "b", "i", "j"], 1]], "tkind": "anti",
+           "pref": [1, 4], "spins": mixed}
     # four indices of one space (diagonal blocks, with and without bra-ket
     # symmetry; a tensor with all indices in one group)
     for bk in (0, 1):
@@ -158,19 +167,27 @@ def gen_cases(tier, seed):
             take = min(len(odd), rng.choice([1, 2, 3]))
             objs.append(["Z", [odd.pop() for _ in range(take)], 1])
         yield {"objs": objs, "tkind": tkind, "pref": [rng.choice([1, -1, 3]), rng.choice([1, 2, 4])],
-               "bk": rng.choice([0, 0, 1])}
+               "bk": rng.choice([0, 0, 1]),
+               "spins": rng.choice([None, None, {n: rng.choice("ab") for n in OCC + VIRT}])}
 
 
 def minimal_indices(space, spin, targets=()):
+    """lowest index names per space AND spin (i_alpha and i_beta are different indices)"""
     out = []
-    used = {"o": [s.name for s in targets if s.space == "occ"],
-            "v": [s.name for s in targets if s.space == "virt"]}
-    for sp in space:
+    spin = spin or ""
+    spins = ["" if c == "n" else c for c in spin] if spin else [""] * len(space)   # 'n': no spin
+    used = {}
+    for s in targets:
+        used.setdefault((s.space[0], s.spin), []).append(s.name)
+    for sp, sg in zip(space, spins):
         full = "occ" if sp == "o" else "virt"
-        n = get_lowest_avail_indices(1, used[sp], full)[0]
-        used[sp].append(n)
+        names = used.setdefault((sp, sg), [])
+        n = get_lowest_avail_indices(1, names, full)[0]
+        names.append(n)
         out.append(n)
-    return get_symbols(out)
+    if not any(spins):
+        return get_symbols(out)
+    return [get_symbols(n, sg or None)[0] for n, sg in zip(out, spins)]
 
 
 def deriv_check(case):
@@ -269,7 +286,8 @@ def _recontract(case, e, res, tg, asg, model, occ):
             total += evaluate(part.sympy, asg, model)
             continue
         (block,) = blocks
-        tidx = minimal_indices(block, "", tg)
+        block, _, bspin = block.partition("_")
+        tidx = minimal_indices(block, bspin, tg)
         if case["tkind"] == "anti":
             nu = len(occ[0][1]) // 2
             t = AntiSymmetricTensor("T", tuple(tidx[:nu]), tuple(tidx[nu:]), case.get("bk", 0))
